@@ -83,6 +83,30 @@ Theorem C14_exact_core : forall i m m', ExactInv m -> static_exact i = true -> s
 Proof. exact exact_core. Qed.
 Print Assumptions C14_exact_core.
 
+(* ---- trap paths.  A trapping opcode (trap_error in vm.c) is a TERMINAL step of the model: its micro-ops are carried out
+   and [run] executes nothing after it.  Being a step, it preserves the invariant and touches no freed object
+   (C14_step_inv, C14_no_use_after_free, C14_run_inv cover it); spelled out: *)
+Theorem C14_trap_step_safe : forall i m, Inv m -> traps i m = true ->
+  step i m <> Some UAF /\ step i m <> Some OutOfFuel /\ forall m', step i m = Some (Ok m') -> Inv m' /\ run [i; IRet; IRet] m = Some (Ok m').
+Proof.
+  intros i m I T. destruct (step_no_uaf i m I) as [A B]. split; auto. split; auto.
+  intros m' S. split. exact (step_inv i m m' I S). simpl. rewrite S, T. reflexivity.
+Qed.
+Print Assumptions C14_trap_step_safe.
+
+(* the out-of-range / empty / not-an-array paths of ARR_POP, ARR_GET, ARR_SET, ARR_REMOVE (vm.c after "out-of-range array
+   operations ... yield void and keep running" was fixed): the popped array - and for ARR_SET the popped value - are released,
+   nothing is forgotten: the terminal state is exact (the index operand is a scalar; these handlers never release it) *)
+Theorem C14_array_trap_exact : forall i m m', ExactInv m -> array_trap_op i = true -> traps i m = true ->
+  index_scalar i m = true -> step i m = Some (Ok m') -> ExactInv m'.
+Proof. exact array_trap_exact. Qed.
+Print Assumptions C14_array_trap_exact.
+
+(* the range test is the 64-bit one, made before the index is narrowed: in range iff 0 <= idx < length *)
+Theorem C14_index_range_is_64bit : forall idx len j, idx_in idx len = Some j <-> (0 <= idx < Z.of_nat len)%Z /\ j = Z.to_nat idx.
+Proof. exact idx_in_spec. Qed.
+Print Assumptions C14_index_range_is_64bit.
+
 (* ---- refuted: opcodes of vm.c that forget a reference (ref_count stays above the in-degree for ever => the object
    and everything it owns is never freed).  Each: a reachable exact state, one opcode, a non-exact (but safe) state. *)
 (* SUB/MUL/DIV/MOD type error path; not a finding: the VM stops with the error right after *)
@@ -110,6 +134,19 @@ Proof.
   exists m. split. reflexivity. split.
   - apply (run_exact ex_prog init_state m init_exact R). vm_compute. reflexivity.
   - vm_compute in R. inversion R. reflexivity.
+Qed.
+(* a run that traps: array_set with index 2^32 (in range after narrowing, out of range as a 64-bit value) on a one-element
+   array of strings with a string value: the array, its element and the value are all released, the state is exact, and
+   the instructions after the trap are not executed *)
+Definition ex_trap : list instr :=
+  [IEnter 0; IPushStr 0; IArrLiteral 1; IPushNon; IPushStr 1; IArrSet 4294967296%Z; IPushStr 2; IPushStr 3].
+Example C14_ex_trap_run :
+  exists m, run ex_trap init_state = Some (Ok m) /\ ExactInv m /\ live_count (hp m) = 0 /\ stack m = [].
+Proof.
+  destruct (run ex_trap init_state) as [[m| | |]|] eqn:R; try (vm_compute in R; discriminate).
+  exists m. split. reflexivity. split.
+  - apply (run_exact ex_trap init_state m init_exact R). vm_compute. reflexivity.
+  - vm_compute in R. inversion R. split; reflexivity.
 Qed.
 (* ... and releasing an object that is already freed is detected by the model (so no_use_after_free is not vacuous) *)
 Example C14_ex_uaf_detected :
